@@ -123,11 +123,31 @@ func (w *World) pools() []*poolInfo {
 				if id, ok := kv.Key.(*ast.Ident); !ok || id.Name != "New" {
 					continue
 				}
-				fl, ok := kv.Value.(*ast.FuncLit)
-				if !ok {
+				var newBody *ast.BlockStmt
+				switch nv := kv.Value.(type) {
+				case *ast.FuncLit:
+					newBody = nv.Body
+				case *ast.Ident, *ast.SelectorExpr:
+					// New: namedConstructor
+					var id *ast.Ident
+					if i, ok := nv.(*ast.Ident); ok {
+						id = i
+					} else {
+						id = nv.(*ast.SelectorExpr).Sel
+					}
+					if f, ok := w.Info.Uses[id].(*types.Func); ok {
+						if d := w.decls[f]; d != nil {
+							newBody = d.Body
+						}
+					}
+				}
+				if newBody == nil {
 					continue
 				}
-				ast.Inspect(fl.Body, func(m ast.Node) bool {
+				ast.Inspect(newBody, func(m ast.Node) bool {
+					if _, isLit := m.(*ast.FuncLit); isLit {
+						return false
+					}
 					if ret, ok := m.(*ast.ReturnStmt); ok && len(ret.Results) == 1 {
 						if t := w.Info.TypeOf(ret.Results[0]); t != nil && target.elem == nil {
 							target.elem = t
